@@ -3,7 +3,7 @@ import core, framework, gen_tables
 from props import common
 
 LEVEL = 'proof'
-MODULES = ['TlsModel.Props.C12', 'TlsModel.Gen.CiphersCheck']
+MODULES = ['TlsModel.Props.C12', 'TlsModel.Gen.CiphersCheck', 'TlsModel.Gen.CipherNamesCheck']
 
 KX = ['NULL', 'PSK', 'KRB5', 'SRP', 'RSA', 'DH', 'DHE', 'ECDH', 'ECDHE', 'AECDH', 'ECCPWD', 'TLS13']
 AU = ['NULL', 'PSK', 'KRB5', 'SRP', 'SRP+DSS', 'SRP+RSA', 'DSS', 'RSA', 'DHE', 'ECDSA', 'ECCPWD', 'TLS13']
@@ -77,7 +77,7 @@ def run(ctx):
     exe = core.build_harness()
     g = gen_tables.gen_ciphers(exe)
     ctx.notes.append('Gen/Ciphers.lean: runtime %d rows, file %d rows, pinned %d rows (changed=%s)' % (g['runtime_rows'], g['file_rows'], g['pinned_rows'], g['changed']))
-    ok = common.lean_step(ctx, MODULES, audit=['TlsModel.Props.C12', 'TlsModel.Gen.CiphersCheck'])
+    ok = common.lean_step(ctx, MODULES, audit=['TlsModel.Props.C12', 'TlsModel.Gen.CiphersCheck', 'TlsModel.Gen.CipherNamesCheck'])
     rng = ctx.rng
     frows = {f[0]: f for f in g['file']}
     pinned = {f[0]: f for f in g['pinned']}
@@ -148,9 +148,9 @@ def run(ctx):
     common.lean_failure_violation(ctx, ok)
     return ctx.finish(LEVEL,
         rule='exhaustive: all 65536 ids through from_id / TryFrom<u16> / TryFrom<TlsCipherSuiteID> / get_ciphersuite and the full row (10 columns + 3 derived sizes) against the registry file of /repo; every registry name and 8+ perturbations per name through both name routes; pinned-vs-current file rows; name-token agreement rules on every row; distinct = distinct parameter tuples',
-        checker_cmd='cd /verif/lean && lake build TlsModel.Props.C12 TlsModel.Gen.CiphersCheck',
+        checker_cmd='cd /verif/lean && lake build TlsModel.Props.C12 TlsModel.Gen.CiphersCheck TlsModel.Gen.CipherNamesCheck',
         assumptions=['phf lookup = association lookup on the generated entries (tied by the exhaustive id sweep)',
-                     'name-token agreement is checked by the Python rules (IANA naming scheme), not in the kernel'],
+                     'name-token agreement: the IANA naming-scheme rule is a Lean predicate (CipherNames.lean) checked by the kernel on every row (Gen/CipherNamesCheck.lean); the same rule in Python names the failing row for the replay'],
         extra={'exhaustive': True})
 
 
